@@ -35,9 +35,10 @@ def singles_flags(mode, flags):
     return flags & ~drop
 
 
-def work(item, N):
+def work(item, N, hidden_only=False):
     """item = (mode, form, flags, lhs_args, inc_list, exc_list, expect_lengths)
-       lhs_args = (patterns, exclude_kw); inc_list/exc_list = single pattern texts defining the RHS."""
+       lhs_args = (patterns, exclude_kw); inc_list/exc_list = single pattern texts defining the RHS.
+       hidden_only: restrict the names to those with a segment beginning with a dot (the C03 reading of the same obligation)."""
     mode, form, flags, lhs, incs, excs, neg_all = item
     m = e1.mod_of(mode)
     res = {'item': item, 'status': 'ok', 'sat': 0, 'unsat': 0, 'unknown': 0, 'solver_s': 0.0}
@@ -90,6 +91,9 @@ def work(item, N):
         for inc in single_exc:
             rhs = AND(rhs, z3.Not(enc.any_full(inc))) if rhs is not FALSE else rhs
         cons = enc.side_constraints() + [sym.len_ge(1), z3.Xor(lhs_f, rhs) if rhs is not FALSE else lhs_f]
+        if hidden_only:
+            from engine import spec as S
+            cons.append(S.some_hidden_segment(sym, mode == 'gl'))
     except NotEncodable as ex:
         res['status'] = 'not_encodable'
         res['exc'] = str(ex)
